@@ -667,7 +667,7 @@ TOP:
 				ov = ov.Elem()
 			}
 			if ov.Kind() == reflect.Struct {
-				if fv := ov.FieldByName(goField); fv.IsValid() {
+				if fv := ov.FieldByName(goField); fv.IsValid() && fv.CanInterface() {
 					value = fv.Interface()
 				}
 			}
